@@ -27,7 +27,7 @@ man = {
     "version": 1,
     "setup_cmd": "./setup.sh",
     "hooks": {"guard": "OAS_VERIF", "enable": "no hook is needed: OpenMDAO exposes component instances, vectors and Jacobians; checks import /repo's working tree via PYTHONPATH=/repo",
-              "baseline_off_cmd": "cd /repo && /venv/bin/python -m pytest -ra -q -p no:cacheprovider --timeout=900 --continue-on-collection-errors -n 12",
+              "baseline_off_cmd": "cd /repo && /venv/bin/python -m pytest -ra -q -p no:cacheprovider --timeout=900 --continue-on-collection-errors",
               "source_commits": [], "add_only": True},
     "engines": [{"name": "coq-oas", "path": "coq/", "serves_properties": [c["property_id"] for c in checks],
                  "kind_free_text": "Coq 8.16.1 development: Model (Gallina, polymorphic in Ops), Real (proof libraries), Props (property theorems), Generated (translator output); harness/ drives translator, make, correspondence and failing-input search"}],
